@@ -42,8 +42,11 @@ def concrete_plan(p, k):
         plan["cs"]["writer_delay_ms"] = 20
         plan["sc"]["writer_delay_ms"] = 5
     if k % 3 != 2:
-        plan["sndbuf"] = 4096
-        plan["rcvbuf"] = 4096
+        # small buffers so that they really fill; big TCP transfers get 64 KiB (4 KiB windows make
+        # TCP crawl at ~300 KB/s: Nagle + delayed ACK), still far below the payload
+        small = 65536 if (p["fam"] == "tcp" and n_cs >= (1 << 20)) else 4096
+        plan["sndbuf"] = small
+        plan["rcvbuf"] = small
     acc = p["acc"]
     if acc == "plain":
         plan["accept"] = {"kind": "plain"}
@@ -127,27 +130,27 @@ def run_resumable(cmd_prefix, n_items, timeout, per_item_key, max_incidents=400)
 def run_stream(chk, bindir, plans, nproc=4):
     n = len(plans)
     nproc = max(1, min(nproc, n // 8 or 1))
-    bounds = [(n * k // nproc, n * (k + 1) // nproc) for k in range(nproc)]
+    # round-robin: the enumeration order puts all the big TCP transfers at the end
+    index = [list(range(k, n, nproc)) for k in range(nproc)]
 
     def job(k):
-        lo, hi = bounds[k]
         path = os.path.join(chk.work, "plans_%d.ndjson" % k)
-        core.write_ndjson(path, plans[lo:hi])
+        core.write_ndjson(path, [plans[i] for i in index[k]])
         wd = os.path.join(chk.work, "sock%d" % k)
         shutil.rmtree(wd, ignore_errors=True)
         os.makedirs(wd)
-        lines, inc = run_resumable([os.path.join(bindir, "netops"), "stream", path, wd], hi - lo, 900, "id", max_incidents=2)
+        lines, inc = run_resumable([os.path.join(bindir, "netops"), "stream", path, wd], len(index[k]), 1800, "id", max_incidents=2)
         shutil.rmtree(wd, ignore_errors=True)
-        return lo, lines, inc
+        return k, lines, inc
     conns = [None] * n
     incidents = {}
     with concurrent.futures.ThreadPoolExecutor(max_workers=nproc) as ex:
-        for lo, lines, inc in ex.map(job, range(nproc)):
+        for k, lines, inc in ex.map(job, range(nproc)):
             for v in lines:
                 if v.get("ev") == "conn":
-                    conns[lo + v["id"]] = v
+                    conns[index[k][v["id"]]] = v
             for i, w in inc.items():
-                incidents[lo + i] = w
+                incidents[index[k][i]] = w
     return conns, incidents
 
 
@@ -401,14 +404,13 @@ def run(tier):
     nontrivial = set()
 
     # ---- 1. the designs, exhaustively on small constants
-    res = core.run_tlc("Stream.tla", "Stream_MCq.cfg" if tier == "quick" else "Stream_MC.cfg", workers=8, timeout=2400, xmx="8g")
-    core.tlc_must_pass(res, "Stream")
-    chk.add_tlc(res)
-    chk.extra["stream_model_states"] = res.distinct
+    pool = concurrent.futures.ThreadPoolExecutor(max_workers=2)
+    fut_stream = pool.submit(core.run_tlc, "Stream.tla", "Stream_MCq.cfg" if tier == "quick" else "Stream_MC.cfg", workers=4,
+                             timeout=3000, xmx="8g", metadir=os.path.join(core.WORK, "tlc-meta", "Stream-%d" % os.getpid()))
     vecs = cmsg_vectors(chk, tier)
 
     # ---- 2. transfers
-    plans = gen_plans(chk, 397 if tier == "quick" else 41, 4 if tier == "quick" else 5)
+    plans = gen_plans(chk, 397 if tier == "quick" else 97, 4 if tier == "quick" else 5)
     conns, incidents = run_stream(chk, bindir, plans)
     acc, rejected, frontier = judge_stream(chk, conns, plans)
     for r in rejected:
@@ -459,6 +461,11 @@ def run(tier):
     chk.sample({"control_buffer_words": items[len(items) // 2]["words"], "expected_fds": items[len(items) // 2]["expect"]})
     # ---- 5. try_* never block (structural)
     run_tryops(chk, bindir)
+
+    res = fut_stream.result()          # the exhaustive run of the design went on in the background
+    core.tlc_must_pass(res, "Stream")
+    chk.add_tlc(res)
+    chk.extra["stream_model_states"] = res.distinct
 
     chk.nontrivial = len(nontrivial)
     chk.rule = ("accepted connections in which some call had to wait (a write took > 1 ms, a Timeout or a try-None occurred) or >= 4 KiB were "
